@@ -420,6 +420,39 @@ def open_via(via, url, ws_opts=None, conn_opts=None):
     raise KeyError(via)
 
 
+class NotBytes:
+    """What the library handed out where bytes were due (e.g. the str '' for an empty payload): compares unequal to any bytes value, so
+    the check reports a wrong result instead of the harness crashing in bytes(...)."""
+
+    def __init__(self, v):
+        self.v = v
+
+    def __eq__(self, other):
+        return isinstance(other, NotBytes) and type(self.v) is type(other.v) and self.v == other.v
+
+    def __ne__(self, other):
+        return not self.__eq__(other)
+
+    def __hash__(self):
+        return hash(("NotBytes", type(self.v).__name__, repr(self.v)))
+
+    def __len__(self):
+        try:
+            return len(self.v)
+        except TypeError:
+            return 0
+
+    def __repr__(self):
+        return "<%s %.40r where bytes were expected>" % (type(self.v).__name__, self.v)
+
+
+def B(v):
+    """bytes(v) for bytes-like values, a NotBytes marker for anything else."""
+    if isinstance(v, (bytes, bytearray, memoryview)):
+        return bytes(v)
+    return NotBytes(v)
+
+
 def exc_name(e):
     return type(e).__name__
 
